@@ -467,6 +467,29 @@ def main():
             return 2
     ev = evaluate(prop, outdir)
     harness_fail = rc != 0
+    # Observations made in real time on the real kernel (end-to-end run, hook scripts as child processes) depend on the scheduler of
+    # a machine that may be busy: such an observation counts only if it repeats in an immediate second run of that test (without the
+    # result cache).  A change of the code fails both runs; a late shell or a lost frame does not.  What was dropped is recorded.
+    realtime = re.compile(r'^(e2e-|c15-hook|c19-hook)')
+    rt = [d for d in ev['direct'] if realtime.match(str(d.get('kind', '')))]
+    unconfirmed = []
+    if rt and not harness_fail:
+        again = set()
+        for d in rt:
+            k = str(d.get('kind', ''))
+            again.add('TestE2E' if k.startswith('e2e-') else 'TestC15Hook' if k.startswith('c15-hook') else 'TestC19Hook')
+        again &= set(prop['tests'])
+        if again:
+            od = outdir + '-confirm'
+            run_generators(binp, dict(prop, tests=sorted(again)), od, seed, tier, extra_env={'VERIF_E2E_CACHE': ''})
+            ev2 = evaluate(prop, od)
+            shutil.rmtree(od, ignore_errors=True)
+            kinds2 = set(str(d.get('kind', '')) for d in ev2['direct'])
+            unconfirmed = [d for d in rt if str(d.get('kind', '')) not in kinds2]
+            if unconfirmed:
+                ev['direct'] = [d for d in ev['direct'] if d not in unconfirmed]
+                shutil.rmtree(os.path.join(WORK, 'e2e-cache'), ignore_errors=True)   # do not hand the one-off result to the next check
+                log('real-time observation(s) not confirmed by a second run, dropped: ' + '; '.join(sorted(set(str(d.get('kind')) for d in unconfirmed))))
     kernel = chk = None
     if tier == 'thorough':
         kernel = kernel_crosscheck(outdir, pid)
@@ -576,6 +599,8 @@ def main():
     )
     if RETRIED:
         coverage['retried_after_timeout'] = RETRIED
+    if unconfirmed:
+        coverage['realtime_observations_not_confirmed_by_second_run'] = [dict(kind=d.get('kind'), case=str(d.get('case', ''))[:300]) for d in unconfirmed]
     evidence = dict(property_id=pid, tier=tier, seed=seed, level=prop.get('level', 'proof'), coverage=coverage,
                     assumptions=prop.get('assumptions', []), wall_s=round(time.time() - t0, 2), violations=nviol)
     with open(evp, 'w') as f:
